@@ -24,6 +24,10 @@ class RunTimeout(BaseException):
     pass
 
 
+# wall-clock cap per run, seconds (runs normally take milliseconds)
+WALL_CAP = float(os.environ.get('VERIF_WALL_CAP', '60'))
+
+
 class Trace(object):
     def __init__(self):
         self.events = []
@@ -306,10 +310,12 @@ def _spy_sink(tr, log):
     return sink
 
 
-def run_lp(sc, prefer=None, xcheck=None, wall_cap=60, keep_sets=True):
+def run_lp(sc, prefer=None, xcheck=None, wall_cap=None, keep_sets=True):
     """family 'lp': instance text + solver options + API ops."""
     import instances
     tr = Trace()
+    if wall_cap is None:
+        wall_cap = WALL_CAP
     clock = world.SimClock(sc.get('clock_seed', 0))
     log = _mk_log(tr, clock)
     clock.log = log
@@ -337,6 +343,12 @@ def run_lp(sc, prefer=None, xcheck=None, wall_cap=60, keep_sets=True):
                     keep_sets=keep_sets)
             except RunTimeout:
                 be = tr.backend
+                if be is not None and be.busy:
+                    # the wall cap fired inside the stand-in back end: a
+                    # limitation of the harness, never a verdict
+                    raise HarnessError('HARNESS-TIMEOUT: wall cap %ss hit '
+                                       'inside the stand-in back end'
+                                       % wall_cap)
                 tr.calls.append({'op': 'timeout', 'ok': False,
                                  'exc': {'type': 'RunTimeout', 'site': None,
                                          'msg': 'wall cap %ss' % wall_cap,
@@ -353,13 +365,15 @@ def run_lp(sc, prefer=None, xcheck=None, wall_cap=60, keep_sets=True):
     return tr
 
 
-def run_gen(sc, prefer=None, xcheck=None, wall_cap=60, keep_sets=True):
+def run_gen(sc, prefer=None, xcheck=None, wall_cap=None, keep_sets=True):
     """family 'gen': real generator under seeded RNG state, files captured,
     optionally followed by solver sessions on the generated files."""
     import numpy
     from matchingproblems import generator as gen_pkg
     from matchingproblems.generator import generator_shared
     tr = Trace()
+    if wall_cap is None:
+        wall_cap = WALL_CAP
     clock = world.SimClock(sc.get('clock_seed', 0))
     log = _mk_log(tr, clock)
     clock.log = log
